@@ -112,6 +112,99 @@ def PState.hasHtlcState : PState → Bool
 /-- `session_privs.remove(p)` -/
 def removePart (p : PartId) (ps : List PartId) : List PartId := ps.filter (· != p)
 
+/-! ### the state seen through the GENERATED variant tables (`Generated/OutboundSend.lean`, second half): every decision of
+    `mark_fulfilled` / `mark_abandoned` / `remove` / `insert` / `remaining_parts` is looked up there -/
+
+/-- the `PendingOutboundPayment` variant of a state (`absent` = no map entry ⇒ none); the coarse `preHtlc` stands for
+    `AwaitingInvoice` -/
+def PState.variant : PState → Option Variant
+  | .absent => none
+  | .preHtlc _ => some .awaitingInvoice
+  | .retryable _ _ _ => some .retryable
+  | .fulfilled _ _ => some .fulfilled
+  | .abandoned _ _ => some .abandoned
+
+/-- the generated `PaymentFailureReason` names as model reasons -/
+def Reason.ofGen : FailReason → Reason
+  | .recipientRejected => .recipientRejected
+  | .userAbandoned => .userAbandoned
+  | .retriesExhausted => .retriesExhausted
+  | .paymentExpired => .paymentExpired
+  | .routeNotFound => .routeNotFound
+  | .unexpectedError => .unexpectedError
+  | .invoiceRequestExpired => .invoiceRequestExpired
+
+/-- `remaining_parts()` through the generated table `holdsParts` (`session_privs.len()` vs `0`), as a list -/
+def PState.remaining (st : PState) : List PartId :=
+  match st.variant with
+  | some v => if holdsParts v then st.parts else []
+  | none => []
+
+/-- is the entry `Abandoned` (generated table) -/
+def PState.isAbandoned (st : PState) : Bool := (st.variant.map isAbandonedV).getD false
+
+/-- replace the `session_privs` field -/
+def PState.withParts (ps : List PartId) : PState → PState
+  | .retryable _ pe to => .retryable ps pe to
+  | .fulfilled _ t => .fulfilled ps t
+  | .abandoned _ r => .abandoned ps r
+  | st => st
+
+/-- update the `pending_amt_msat` field (only `Retryable` has one) -/
+def PState.mapPend (f : Nat → Nat) : PState → PState
+  | .retryable ps pe to => .retryable ps (f pe) to
+  | st => st
+
+/-- the `reason` stored in an `Abandoned` entry (only read when `isAbandoned`) -/
+def PState.storedReason : PState → Reason
+  | .abandoned _ r => r
+  | _ => .unexpectedError
+
+/-- mirrors `PendingOutboundPayment::mark_fulfilled` via `markFulfilledTo` / `markFulfilledKeepsParts` / `markFulfilledTicks`;
+    none = the `{ debug_assert!(false); return; }` arm -/
+def markFulfilledP (st : PState) : Option PState :=
+  match st.variant with
+  | none => none
+  | some v => match markFulfilledTo v with
+    | some .fulfilled => some (.fulfilled (if markFulfilledKeepsParts then st.parts else []) markFulfilledTicks)
+    | _ => none
+
+/-- mirrors `PendingOutboundPayment::mark_abandoned(reason)` via `markAbandonedRewrites` / `markAbandonedTo` /
+    `markAbandonedKeepsParts` -/
+def markAbandonedP (st : PState) (r : Reason) : PState :=
+  match st.variant with
+  | none => st
+  | some v =>
+    if markAbandonedRewrites v then
+      match markAbandonedTo v with
+      | .abandoned => .abandoned (if markAbandonedKeepsParts v then st.parts else []) r
+      | _ => st
+    else st
+
+/-- mirrors `PendingOutboundPayment::remove(session_priv, path)` via `removeHolds` / `removeAdjustsPending`: (the returned
+    bool, the entry afterwards); none = the `{ debug_assert!(false); false }` arm -/
+def removeP (amt : Amt) (p : PartId) (st : PState) : Option (Bool × PState) :=
+  match st.variant with
+  | none => some (false, st)
+  | some v => match removeHolds v with
+    | none => none
+    | some false => some (false, st)
+    | some true =>
+      if st.parts.contains p then
+        some (true, (st.withParts (removePart p st.parts)).mapPend fun pe => removeAdjustsPending (v == .retryable) pe (amt p))
+      else some (false, st)
+
+/-- mirrors `PendingOutboundPayment::insert(session_priv, path)` via `insertAccepts` / `insertAdjustsPending` -/
+def insertP (amt : Amt) (p : PartId) (st : PState) : Option (Bool × PState) :=
+  match st.variant with
+  | none => some (false, st)
+  | some v => match insertAccepts v with
+    | none => none
+    | some false => some (false, st)
+    | some true =>
+      if st.parts.contains p then some (false, st)
+      else some (true, (st.withParts (st.parts ++ [p])).mapPend fun pe => insertAdjustsPending (v == .retryable) pe (amt p))
+
 /-- one operation as seen by a single payment id -/
 inductive POp
   | send (parts : List PartId)
@@ -134,25 +227,30 @@ inductive POp
 def abandonNow (id : PayId) (ps : List PartId) (r : Reason) (pre : List Ev) : PState × Out :=
   if ps.isEmpty then (.absent, { evs := pre ++ [.failed id r] }) else (.abandoned ps r, { evs := pre })
 
-/-- mirrors OutboundPayments::abandon_payment (`pre` = events already pushed by the caller) -/
+/-- mirrors OutboundPayments::abandon_payment (`pre` = events already pushed by the caller): `mark_abandoned(reason)`, then by
+    the variant the entry has afterwards (generated `abandonArm`): `stored` ⇒ if `abandonStoredTest` push `PaymentFailed` with the
+    stored reason and drop the entry; `argument` ⇒ push `PaymentFailed` with `r` and drop the entry; else nothing -/
 def abandonP (id : PayId) (st : PState) (r : Reason) (pre : List Ev) : PState × Out :=
-  match st with
-  | .preHtlc _ => (.absent, { evs := pre ++ [.failed id r] })
-  | .retryable ps _ _ => abandonNow id ps r pre
-  | .abandoned ps r0 => abandonNow id ps r0 pre
-  | _ => (st, { evs := pre })
+  match st.variant with
+  | none => (st, { evs := pre })
+  | some _ =>
+    match (markAbandonedP st r).variant.map abandonArm with
+    | some .stored =>
+      if abandonStoredTest (markAbandonedP st r).remaining.length then
+        (.absent, { evs := pre ++ [.failed id (markAbandonedP st r).storedReason] })
+      else (markAbandonedP st r, { evs := pre })
+    | some .argument => (.absent, { evs := pre ++ [.failed id r] })
+    | _ => (markAbandonedP st r, { evs := pre })
 
 /-- `assert!(payment.insert(session_priv, path))` for every path of a route (create_pending_payment,
     find_route_and_send_payment): the new session privs are pairwise distinct and none is in the set yet -/
 def freshFor (ps parts : List PartId) : Bool := decide parts.Nodup && parts.all fun p => !ps.contains p
 
-/-- mirrors `PendingOutboundPayment::remove(session_priv, Some(path))` -/
-def removeSent (amt : Amt) (p : PartId) : PState → PState
-  | .retryable ps pe to =>
-    if ps.contains p then .retryable (removePart p ps) (removeAdjustsPending true pe (amt p)) to else .retryable ps pe to
-  | .fulfilled ps t => .fulfilled (removePart p ps) t
-  | .abandoned ps r => .abandoned (removePart p ps) r
-  | st => st
+/-- mirrors `PendingOutboundPayment::remove(session_priv, Some(path))` as called by `remove_session_privs` (result ignored) -/
+def removeSent (amt : Amt) (p : PartId) (st : PState) : PState :=
+  match removeP amt p st with
+  | some r => r.2
+  | none => st
 
 /-- mirrors OutboundPayments::handle_pay_route_err without its final `find_route_and_send_payment` (that is the
     next op, `retryNext`): `remove_session_privs` of the paths picked by the arm, `push_path_failed_evs_and_scids`,
@@ -185,6 +283,15 @@ def payRoute (amt : Amt) (id : PayId) (st : PState) (paths : List (PartId × Pat
     | .sentAll => (st, { tried := paths.map (·.1) })
     | k => handleErr amt id st k (paths.map fun x => (x.1, x.2.sendRes)) (paths.map (·.1))
 
+/-- the tail of fail_htlc after the abandon decision (the payment is not a probe): `if remaining_parts() == 0 { if let Abandoned
+    { reason, .. } { full_failure_ev = PaymentFailed (iff !probe); payment.remove() } }`, then `path_failure` is pushed first, the
+    full failure second (generated failDrops / failPushesFailed / failPathEvent) -/
+def failTail (id : PayId) (p : PartId) (perm : Bool) (st2 : PState) : PState × Out :=
+  if failDrops st2.remaining.length st2.isAbandoned then
+    (.absent, { evs := (match failPathEvent false perm with | .paymentPathFailed => [Ev.pathFailed id p] | _ => []) ++
+                       (if failPushesFailed false then [Ev.failed id st2.storedReason] else []) })
+  else (st2, { evs := match failPathEvent false perm with | .paymentPathFailed => [Ev.pathFailed id p] | _ => [] })
+
 /-- the per-payment transition function -/
 def stepP (amt : Amt) (id : PayId) (st : PState) : POp → PState × Out
   -- mirrors OutboundPayments::add_new_pending_payment (Entry::Occupied ⇒ DuplicatePayment)
@@ -203,32 +310,38 @@ def stepP (amt : Amt) (id : PayId) (st : PState) : POp → PState × Out
       if freshFor [] parts then (.retryable parts (sumAmt amt parts) (sumAmt amt parts), { tried := parts })
       else (st, { panic := true })
     | _ => (st, { dup := true })
-  -- mirrors OutboundPayments::claim_htlc
-  | .claim p oc => match st with
-    | .absent => (st, {})
-    | .preHtlc _ => (st, { panic := true })
-    | .retryable ps _ _ | .abandoned ps _ =>
-      if oc && ps.contains p then (.fulfilled (removePart p ps) 0, { evs := [.sent id, .pathOk id p] })
-      else (.fulfilled ps 0, { evs := [.sent id] })
-    | .fulfilled ps t =>
-      if oc && ps.contains p then (.fulfilled (removePart p ps) t, { evs := [.pathOk id p] }) else (st, {})
-  -- mirrors OutboundPayments::finalize_claims (one source)
-  | .finalize p => match st with
-    | .absent => (st, {})
-    | .fulfilled ps t => if ps.contains p then (.fulfilled (removePart p ps) t, { evs := [.pathOk id p] }) else (st, {})
-    | _ => (st, { panic := true })
-  -- mirrors OutboundPayments::fail_htlc (`auto` = is_auto_retryable_now(), `perm` = payment_failed_permanently)
-  | .fail p auto perm => match st with
-    | .absent => (st, {})
-    | .preHtlc _ => (st, { panic := true })
-    | .fulfilled ps t => (.fulfilled (removePart p ps) t, {})
-    | .retryable ps pe to =>
-      if !ps.contains p then (st, {}) else
-      if auto && !perm then
-        (.retryable (removePart p ps) (removeAdjustsPending true pe (amt p)) to, { evs := [.pathFailed id p] })
-      else abandonNow id (removePart p ps) (if perm then .recipientRejected else .retriesExhausted) [.pathFailed id p]
-    | .abandoned ps r =>
-      if !ps.contains p then (st, {}) else abandonNow id (removePart p ps) r [.pathFailed id p]
+  -- mirrors OutboundPayments::claim_htlc (decisions: generated claimSends / claimRemoves / claimPathOk, mark_fulfilled, remove)
+  | .claim p oc => match st.variant with
+    | none => (st, {})
+    | some v =>
+      match (if claimSends (isFulfilledV v) then markFulfilledP st else some st) with
+      | none => (st, { panic := true })
+      | some st1 =>
+        if claimRemoves oc then
+          match removeP amt p st1 with
+          | none => (st, { panic := true })
+          | some r => (r.2, { evs := (if claimSends (isFulfilledV v) then [Ev.sent id] else []) ++
+                                      (if claimPathOk r.1 then [Ev.pathOk id p] else []) })
+        else (st1, { evs := if claimSends (isFulfilledV v) then [Ev.sent id] else [] })
+  -- mirrors OutboundPayments::finalize_claims (one source; generated finalizeAsserts / finalizePathOk, remove)
+  | .finalize p => match st.variant with
+    | none => (st, {})
+    | some v =>
+      if !finalizeAsserts (isFulfilledV v) then (st, { panic := true }) else
+      match removeP amt p st with
+      | none => (st, { panic := true })
+      | some r => (r.2, { evs := if finalizePathOk r.1 then [Ev.pathOk id p] else [] })
+  -- mirrors OutboundPayments::fail_htlc (`auto` = is_auto_retryable_now(), `perm` = payment_failed_permanently; the payment is
+  -- not a probe): generated failReturnsNotRemoved / failReturnsFulfilled / failAbandons / failReason / failDrops /
+  -- failPushesFailed / failPathEvent, remove, mark_abandoned
+  | .fail p auto perm => match st.variant with
+    | none => (st, {})
+    | some v => match removeP amt p st with
+      | none => (st, { panic := true })
+      | some r =>
+        if failReturnsNotRemoved r.1 then (r.2, {})
+        else if failReturnsFulfilled (isFulfilledV v) then (r.2, {})
+        else failTail id p perm (if failAbandons false (autoRetryableV v && auto) perm then markAbandonedP r.2 (Reason.ofGen (failReason perm)) else r.2)
   -- mirrors OutboundPayments::abandon_payment
   | .abandon r => abandonP id st r []
   -- mirrors OutboundPayments::find_route_and_send_payment once a route was found (`now` = is_retryable_now()),
@@ -241,26 +354,33 @@ def stepP (amt : Amt) (id : PayId) (st : PState) : POp → PState × Out
       else (.retryable (ps ++ parts) (pe + sumAmt amt parts) to, { tried := parts })
     | .preHtlc _ => (st, { panic := true })
     | _ => (st, {})
-  -- mirrors the `retain` at the end of OutboundPayments::check_retry_payments
-  | .sweep auto => match st with
-    | .retryable ps _ _ => if !auto && ps.isEmpty then (.absent, { evs := [.failed id .retriesExhausted] }) else (st, {})
-    | .abandoned ps r => if ps.isEmpty then (.absent, { evs := [.failed id r] }) else (st, {})
-    | _ => (st, {})
+  -- mirrors the `retain` at the end of OutboundPayments::check_retry_payments (generated sweepAbandons / sweepReason,
+  -- mark_abandoned; dropped + PaymentFailed only if the entry is Abandoned afterwards)
+  | .sweep auto => match st.variant with
+    | none => (st, {})
+    | some v =>
+      if sweepAbandons (autoRetryableV v && auto) st.remaining.length (isPreHtlcLockIn v) then
+        (if (markAbandonedP st (Reason.ofGen sweepReason)).isAbandoned then
+          (.absent, { evs := [.failed id (markAbandonedP st (Reason.ofGen sweepReason)).storedReason] })
+        else (markAbandonedP st (Reason.ofGen sweepReason), {}))
+      else (st, {})
   -- mirrors OutboundPayments::remove_stale_payments (`pendingEv` = a PaymentSent / PaymentPathSuccessful /
-  -- PaymentPathFailed for this id is still in pending_events)
-  | .tick pendingEv => match st with
-    | .fulfilled ps t =>
-      if ps.isEmpty && !pendingEv then
-        (if t + 1 ≤ IDEMPOTENCY_TIMEOUT_TICKS then (.fulfilled ps (t + 1), {}) else (.absent, {}))
-      else (.fulfilled ps 0, {})
-    | .preHtlc t => if t > 0 then (.preHtlc (t - 1), {}) else (.absent, { evs := [.failed id .invoiceRequestExpired] })
-    | _ => (st, {})
-  -- mirrors OutboundPayments::insert_from_monitor_on_startup
-  | .insert p => match st with
-    | .absent | .preHtlc _ => (.retryable [p] (amt p) (amt p), {})
-    | .retryable ps pe to =>
-      if ps.contains p then (st, {}) else (.retryable (ps ++ [p]) (insertAdjustsPending true pe (amt p)) to, {})
-    | _ => (st, {})
+  -- PaymentPathFailed for this id is still in pending_events): generated staleArm / staleFulfilled / staleTimerTicks / staleReason
+  | .tick pendingEv => match st.variant.map staleArm, st with
+    | some .fulfilled, .fulfilled ps t =>
+      if (staleFulfilled (ps.isEmpty && !pendingEv) t IDEMPOTENCY_TIMEOUT_TICKS).2 then
+        (.fulfilled ps (staleFulfilled (ps.isEmpty && !pendingEv) t IDEMPOTENCY_TIMEOUT_TICKS).1, {})
+      else (.absent, {})
+    | some .expiration, .preHtlc t =>
+      if (staleTimerTicks t).2 then (.absent, { evs := [.failed id (Reason.ofGen staleReason)] })
+      else (.preHtlc (staleTimerTicks t).1, {})
+    | _, _ => (st, {})
+  -- mirrors OutboundPayments::insert_from_monitor_on_startup (generated startupArm / startupNewPending / startupNewTotal, insert)
+  | .insert p => match st.variant.map startupArm with
+    | none | some .replace => (.retryable [p] (startupNewPending (amt p)) (startupNewTotal (amt p)), {})
+    | some .insert => match insertP amt p st with
+      | some r => (r.2, {})
+      | none => (st, { panic := true })
   -- mirrors OutboundPayments::send_payment_for_non_bolt12_invoice after the route was found:
   -- add_new_pending_payment, pay_route_internal, handle_pay_route_err (up to its find_route_and_send_payment)
   | .sendR paths noSecret => match st with
